@@ -115,8 +115,22 @@ class WFSA(base.WFSA):
 #    def one(self):
 #        return self.__class__.lift(EPSILON, self.R.one)
 
-WFSA.zero = WFSA()
-WFSA.one = WFSA.lift(EPSILON, w=Float.one, R=Float)
+
+
+class _ClassConstant:
+    """`WFSA.zero` / `WFSA.one` on the class are the Float-weighted constants; on an
+    instance they are the zero / one automaton over that instance's own semiring."""
+
+    def __init__(self, constant, generic):
+        self.constant = constant
+        self.generic = generic
+
+    def __get__(self, obj, cls):
+        return self.constant if obj is None else self.generic.fget(obj)
+
+
+WFSA.zero = _ClassConstant(WFSA(), base.WFSA.zero)
+WFSA.one = _ClassConstant(WFSA.lift(EPSILON, w=Float.one, R=Float), base.WFSA.one)
 
 
 class Simple:
